@@ -50,12 +50,15 @@ func newVerifyRun(R int) *verifyRun {
 
 // sibling: another middleware instance in the same process (another router): same provider, its own caches, limiter and
 // revocation list; client is its client id ("cid" = same application, anything else = another application)
-func (r *verifyRun) sibling(client string) int {
-	in := newInstance(r.p, &down{}, func(c *oidc.Config) { c.RateLimit = r.R; c.ClientID = client })
+func (r *verifyRun) sibling(client string) int { return r.siblingR(client, r.R) }
+
+// siblingR: a sibling configured with its own rate limit (a reloaded or second router under the same middleware name)
+func (r *verifyRun) siblingR(client string, R int) int {
+	in := newInstance(r.p, &down{}, func(c *oidc.Config) { c.RateLimit = R; c.ClientID = client })
 	r.insts = append(r.insts, in)
 	r.clients = append(r.clients, client)
 	i := len(r.insts) - 1
-	r.rec(M{"op": "vinst", "i": i, "client": client, "R": r.R})
+	r.rec(M{"op": "vinst", "i": i, "client": client, "R": R})
 	T.stat("verify.sibling-instances")
 	return i
 }
@@ -263,6 +266,17 @@ func familyVerify(t *testing.T) {
 				r.verify(damaged, false)
 				r.verify(tk, false)
 			}
+			if sc%5 == 2 && sc%2 == 0 { // first verified only after its exp, inside the clock-skew window (accepted), then again once the window has closed
+				tk := r.mint("valid", 90*time.Second, "")
+				vsleep(time.Duration(95+rng.Intn(100)) * time.Second)
+				r.verify(tk, false)
+				vsleep(time.Duration(20+rng.Intn(80)) * time.Second)
+				r.verify(tk, false)
+				vsleep(40 * time.Second)
+				r.verify(tk, false)
+				vsleep(70 * time.Second)
+				r.verify(tk, false)
+			}
 			if sc%10 == 6 && !lowLimit { // sibling instances of the same process: each decides on its own state and its own configuration
 				same, other := r.sibling("cid"), r.sibling("another-app")
 				tk := r.mint("valid", 2*time.Hour, "")
@@ -332,6 +346,21 @@ func familyLimiter(t *testing.T) {
 					T.oracle("C19", "a correctly signed fresh token was rejected for a reason other than the rate limit", M{"id": tk.id}, r.replay())
 				}
 				return res
+			}
+			if sc%4 == 1 { // a second instance under the same middleware name with another limit (reload with a changed rateLimit, or
+				// two routers): each enforces its own configuration, with its own bucket
+				R2 := []int{10, 50, 3 * R, R/3 + 10}[rng.Intn(4)]
+				b := r.siblingR("cid", R2)
+				for i := 0; i < 2*R2+5 && i < 800; i++ { // a burst on the new instance: its own limit, nothing drawn from the first one's bucket
+					r.verifyOn(b, r.mint("valid", time.Hour, ""))
+				}
+				for i := 0; i < R+3 && i < 600; i++ { // and the first instance still has its whole burst
+					arrive()
+				}
+				vsleep(1500 * time.Millisecond)
+				for i := 0; i < R2+2 && i < 600; i++ {
+					r.verifyOn(b, r.mint("valid", time.Hour, ""))
+				}
 			}
 			pattern := sc % 6
 			T.stat(fmt.Sprintf("limiter.pattern.%d", pattern))
